@@ -227,9 +227,12 @@ def uniform_dequantize(
       tensor_data, quantization_params
   )
   _is_valid_quantization_params(tensor_data, quantization_params)
-  return np.multiply(
-      tensor_data - quantization_params.zero_point, quantization_params.scale
-  )
+  zero_point = quantization_params.zero_point
+  if np.issubdtype(zero_point.dtype, np.integer):
+    # Widen the zero point so that `tensor_data - zero_point` cannot wrap
+    # around when both are narrow integers of the same type (e.g. int8).
+    zero_point = zero_point.astype(np.result_type(zero_point.dtype, np.int32))
+  return np.multiply(tensor_data - zero_point, quantization_params.scale)
 
 
 def symmetric_quantize_bias_tensor(
